@@ -18,8 +18,9 @@ import gen_c07
 KINDS = ("sync", "async", "thread")
 # data payloads (index 0 = None = no data)
 PAYLOADS = [None, 0, 1, "", "x", False, [], {}, [1, None, "a"], {"a": {"b": [1, {"c": None}]}, "d": "é"},
-            {"traceback": ["not a real one"]}, [[[]]], -2 ** 63, 1.5, {"": 0}]
-MSGS = ["", "m", "Internal Error", "café \U0001F60B", 'q"uo\\te', " lead and trail ", "line\nbreak", "0",
+            {"traceback": ["not a real one"]}, [[[]]], -2 ** 63, 1.5, {"": 0},
+            {"€": ["ü", "\u20ac\u4e2d", "\U0001F60B\U0001F680"], "n": "ß"}]
+MSGS = ["", "m", "\u20acuro \u4e2d\u6587 ü \U0001F680", "Internal Error", "café \U0001F60B", 'q"uo\\te', " lead and trail ", "line\nbreak", "0",
         "x" * 300]
 OTHER_EXC = ("ValueError", "KeyError", "RuntimeError", "ZeroDivisionError", "Custom", "FeatureRequestError",
              "AttributeError")
@@ -32,6 +33,59 @@ PSHAPES = ["absent", None, [], {}, {"a": 1, "b": "x"}, {"class": 1}, {"from": "x
            "str", 5, True, {"é": 1, "a b": 2}, {"": 1}, {"kind": "k", "return": {"lambda": []}},
            [[{"None": 1}]], {"a": [], "b": {}}]
 VALID_POSITION = {"textDocument": {"uri": "file:///c07.txt"}, "position": {"line": 0, "character": 0}}
+_POS = {"line": 0, "character": 0}
+TYPED = {      # standard request methods with different params classes -> a valid instance (None: params optional)
+    "textDocument/hover": VALID_POSITION,
+    "textDocument/rename": dict(VALID_POSITION, newName="n"),
+    "textDocument/codeAction": {"textDocument": {"uri": "file:///c07.txt"}, "range": {"start": _POS, "end": _POS},
+                                "context": {"diagnostics": []}},
+    "workspace/executeCommand": {"command": "c07.none-such"},
+    "workspace/inlayHint/refresh": None,
+}
+
+
+def typed_shapes(valid):
+    """The params dimension of a typed request: what a peer can put in the member, valid or not."""
+    import copy
+    out = ["absent", None, True, False, 0, 1, 1.5, "", "x", [], [1], [{}], {}, {"wrong": 1, "names": 2}]
+    if isinstance(valid, dict):
+        out.append(valid)
+        out.append(dict(valid, c07extra=1))
+        for k in valid:                      # a required member missing
+            out.append({a: b for a, b in valid.items() if a != k})
+        for k in valid:                      # right names, wrong value types at depth 1
+            for bad in (5, "x", [1], None, {"x": 1}):
+                out.append(dict(valid, **{k: bad}))
+        for k, v in valid.items():           # ... at depth 2 (and 3)
+            if isinstance(v, dict):
+                for k2, v2 in v.items():
+                    for bad in ("x", [1], {"y": 2}, None):
+                        d = copy.deepcopy(valid); d[k][k2] = bad
+                        out.append(d)
+                    if isinstance(v2, dict):
+                        for k3 in v2:
+                            d = copy.deepcopy(valid); d[k][k2][k3] = "x"
+                            out.append(d)
+    return out
+
+
+def structuring_oracle(method, rid, params):
+    """Does the request structure as the type lsprotocol registers for the method?  (cattrs is an oracle:
+    DESIGN section 2.)  -> "ok" | "badv" (ClassValidationError) | "bado" (anything else)"""
+    from lsprotocol import types, converters
+    from cattrs.errors import ClassValidationError
+    d = {"jsonrpc": "2.0", "id": rid, "method": method}
+    if not (isinstance(params, str) and params == "absent"):
+        d["params"] = params
+    try:
+        converters.get_converter().structure(d, types.METHOD_TO_TYPES[method][0])
+    except ClassValidationError:
+        return "badv"
+    except Exception:
+        return "bado"
+    return "ok"
+
+
 # shapes of "any other exception": (name, needs python feature)
 OTHER_SHAPES = ("note1", "notes3", "note-nonascii", "multiline", "syntax", "syntaxloc", "group", "noargs",
                 "intarg", "tuplearg", "ownstr", "chained", "subclass")
@@ -270,6 +324,43 @@ class C07(core.Property):
         srv(typed="textDocument/completion", method="textDocument/completion", target=["unknown"])
         for cmd in ("nope", "", "c07.none", "a b"):
             srv(target=["unkcmd", cps(cmd)])
+        # typed requests: the whole params dimension, validity decided by the structuring oracle
+        for meth, valid in TYPED.items():
+            seen = set()
+            for shp in typed_shapes(valid):
+                k = json.dumps(shp, sort_keys=True)
+                if k in seen:
+                    continue
+                seen.add(k)
+                verdict = structuring_oracle(meth, 1, shp)
+                if verdict == "ok":
+                    if meth == "workspace/executeCommand":
+                        continue                      # a well-formed command request: covered above
+                    tg = ["feature", "sync"] if meth == "textDocument/hover" else ["unknown"]
+                else:
+                    tg = ["unknown"]
+                srv(method=meth, typed=meth, tparams=shp, p=verdict, target=tg)
+        # requests and replies through REAL framed byte streams on both ends (io_.run_async reading what the
+        # other endpoint wrote): non-ASCII text in messages, data and method names must survive the framing
+        wide = "caf\u00e9 \u20ac \u4e2d \U0001F60B"
+        for via in ("feature", "command"):
+            for kind in KINDS:
+                srv(stream=True, target=[via, kind], outcome=["ret"])
+                srv(stream=True, target=[via, kind], outcome=["unser"])
+                for i, r in enumerate(rows):
+                    code = None if r["code"] is not None else -32050
+                    if r["ctor"][0] == "range_checked":
+                        code = r["ctor"][1] + i
+                    srv(stream=True, target=[via, kind],
+                        outcome=["rpc", r["name"], cps(MSGS[2] if i % 2 else wide), code, len(PAYLOADS) - 1 if i % 3 else 9])
+                srv(stream=True, target=[via, kind], outcome=["rpc", rows[1]["name"], cps("ascii only"), None, 8])
+                for t in ("ValueError", "KeyError", "note-nonascii", "multiline", "ownstr", "group"):
+                    srv(stream=True, target=[via, kind], outcome=["other", t, cps(wide)])
+                if kind != "sync":
+                    srv(stream=True, target=[via, kind], cancel=True, outcome=["ret"])
+        for meth in ("zz/plain", "zz/" + wide):
+            srv(stream=True, method=meth, target=["unknown"])
+        srv(stream=True, target=["unkcmd", cps("nope-" + wide)])
         for meth in BAD_METHODS:
             for shape in range(4):
                 srv(method=meth, p="badv", shape=shape, target=["feature", "sync"])
@@ -565,6 +656,38 @@ class Recorder:
         pass
 
 
+def framed_json(frame):
+    """One written frame decoded as a reader of the byte stream does: Content-Length counts BYTES."""
+    try:
+        i = frame.index(b"\r\n\r\n")
+        n = None
+        for line in frame[:i].split(b"\r\n"):
+            if line.lower().startswith(b"content-length:"):
+                n = int(line.split(b":", 1)[1])
+        body = frame[i + 4:]
+        if n is None or n != len(body):
+            return None
+        return json.loads(body.decode("utf-8"))
+    except Exception:
+        return None
+
+
+class PipeWriter:
+    """Records what an endpoint writes and hands the bytes to the peer's StreamReader."""
+    def __init__(self, rec, reader, loop, loop_thread):
+        self.rec, self.reader, self.loop, self.loop_thread = rec, reader, loop, loop_thread
+    def write(self, data):
+        import threading
+        data = bytes(data)
+        self.rec.frames.append(data)
+        if threading.current_thread() is self.loop_thread:
+            self.reader.feed_data(data)
+        else:
+            self.loop.call_soon_threadsafe(self.reader.feed_data, data)
+    def close(self):
+        pass
+
+
 def body_of(frame):
     i = frame.index(b"\r\n\r\n")
     return frame[i + 4:]
@@ -740,6 +863,33 @@ class Env:
             return None
 
         self.seq = 0
+
+    # ---- real framed byte streams between the two endpoints
+    def open_streams(self):
+        from pygls.io_ import run_async
+        a = self.asyncio
+        sp, rp = self.srv.protocol, self.req.protocol
+        to_srv, to_req = a.StreamReader(), a.StreamReader()
+        stop = self.threading.Event()
+        quiet = lambda *args: None
+        me = self.threading.current_thread()
+        tasks = [self.loop.create_task(run_async(stop, to_srv, sp, None, quiet)),
+                 self.loop.create_task(run_async(stop, to_req, rp, None, quiet))]
+        rp.set_writer(PipeWriter(self.rw, to_srv, self.loop, me))
+        sp.set_writer(PipeWriter(self.sw, to_req, self.loop, me))
+        return (to_srv, to_req, stop, tasks)
+
+    def close_streams(self, pipes):
+        to_srv, to_req, stop, tasks = pipes
+        self.srv.protocol.set_writer(self.sw)
+        self.req.protocol.set_writer(self.rw)
+        self.loop.run_until_complete(self.asyncio.sleep(0))     # pending thread-safe feeds
+        to_srv.feed_eof(); to_req.feed_eof()
+        try:
+            self.loop.run_until_complete(self.asyncio.wait_for(self.asyncio.gather(*tasks, return_exceptions=True), 5))
+        except Exception:
+            for t in tasks:
+                t.cancel()
 
     def close(self):
         try:
@@ -920,6 +1070,8 @@ class Env:
             need = []            # rpc: a constructor that raises is "any other exception"
         else:
             need = None
+        stream = bool(c.get("stream")) and c["p"] == "ok" and not c.get("typed")
+        pipes = self.open_streams() if stream else None
         # the requester writes the request frame ...
         n_r = len(self.rw.frames)
         if c["p"] == "badv" or c.get("typed"):     # method and params are patched into the frame below
@@ -929,16 +1081,24 @@ class Env:
                                                                           arguments=params["arguments"]), msg_id=rid)
         else:
             fut = rp.send_request(method, params, msg_id=rid)
-        req_body = json.loads(body_of(self.rw.frames[n_r]))
-        if c["p"] == "badv":
+        req_body = None if stream else json.loads(body_of(self.rw.frames[n_r]))
+        if stream:
+            pass
+        elif c["p"] == "badv" and not c.get("typed"):
             req_body["method"] = method
             req_body["params"] = [{"textDocument": 5}, {"position": {"line": "x"}}, [1, 2], "str"][c.get("shape", 0)]
-        if c.get("typed"):      # a valid instance of the type registered for a standard method
+        if stream:
+            pass
+        elif c.get("typed"):      # a standard method with a registered params type: the member as the case says
             req_body["method"] = c["typed"]
-            req_body["params"] = VALID_POSITION
+            tp = c.get("tparams", VALID_POSITION)
+            if isinstance(tp, str) and tp == "absent":
+                req_body.pop("params", None)
+            else:
+                req_body["params"] = tp
         elif (c.get("noparams") or absent) and c["p"] != "badv" and method != "workspace/executeCommand":
             req_body.pop("params", None)
-        if c["p"] == "bado":
+        if c["p"] == "bado" and not c.get("typed") and not stream:
             req_body["c07extra"] = 1
         blocker = None
         if c["cancel"]:
@@ -950,37 +1110,53 @@ class Env:
         n_s = len(self.sw.frames)
         try:
             # ... the server reads it ...
-            try:
-                self.feed(sp, json.dumps(req_body))
-            except Exception:
-                pass          # a frame that does not structure is reported by the read loop, not our concern
-            if c["cancel"]:
-                if kind == "async":
-                    self.loop.run_until_complete(self.asyncio.sleep(0))
-                    self.loop.run_until_complete(self.asyncio.sleep(0))
-                self.feed(sp, json.dumps({"jsonrpc": "2.0", "method": "$/cancelRequest", "params": {"id": rid}}))
+            if stream:        # its real read loop already has the bytes; the cancel travels the same way
+                if c["cancel"]:
+                    rp.notify("$/cancelRequest", self.types.CancelParams(id=rid))
+            else:
+                try:
+                    self.feed(sp, json.dumps(req_body))
+                except Exception:
+                    pass          # a frame that does not structure is reported by the read loop, not our concern
+                if c["cancel"]:
+                    if kind == "async":
+                        self.loop.run_until_complete(self.asyncio.sleep(0))
+                        self.loop.run_until_complete(self.asyncio.sleep(0))
+                    self.feed(sp, json.dumps({"jsonrpc": "2.0", "method": "$/cancelRequest", "params": {"id": rid}}))
             def replies():
                 out = []
                 for f in self.sw.frames[n_s:]:
-                    o = json.loads(body_of(f))
-                    if "method" not in o and o.get("id") == rid:
+                    o = framed_json(f) if stream else json.loads(body_of(f))
+                    if o is None:
+                        out.append((None, None))          # what a byte-accurate reader cannot decode
+                    elif "method" not in o and o.get("id") == rid:
                         out.append((o, body_of(f)))
                 return out
-            # answered, or the done-callback has run (it always ends by dropping the in-flight entry)
-            self.spin(lambda: len(replies()) > 0 or rid not in inflight(sp), timeout=3.0)
-            if not replies():
-                self.spin(lambda: len(replies()) > 0, timeout=0.05)
+            if stream:
+                # until the requester's future completes; once the reply is on the wire the requester's
+                # read loop gets a bounded number of turns to take it
+                self.spin(lambda: fut.done() or len(replies()) > 0, timeout=3.0)
+                self.spin(lambda: fut.done(), timeout=0.25)
+            else:
+                # answered, or the done-callback has run (it always ends by dropping the in-flight entry)
+                self.spin(lambda: len(replies()) > 0 or rid not in inflight(sp), timeout=3.0)
+                if not replies():
+                    self.spin(lambda: len(replies()) > 0, timeout=0.05)
         finally:
             if blocker is not None:
                 blocker.set()
             self.gates.pop(key, None)
             self.plan.pop(key, None)
+            if pipes is not None:
+                self.close_streams(pipes)
         rs = replies()
         if len(rs) != 1:
             forget(rp, rid)
             return [["none"] if not rs else ["many", len(rs)], ["pending"]]
         o, raw = rs[0]
-        if "error" in o and o["error"] is not None:
+        if o is None:
+            ro = ["garbled"]
+        elif "error" in o and o["error"] is not None:
             e = o["error"]
             m = e.get("message")
             tin = None
@@ -991,10 +1167,11 @@ class Env:
         else:
             ro = ["result"]
         # ... and the requester reads the reply
-        try:
-            self.feed(rp, raw)
-        except Exception:
-            pass
+        if not stream:
+            try:
+                self.feed(rp, raw)
+            except Exception:
+                pass
         if not fut.done():
             forget(rp, rid)
             return [ro, ["pending"]]
